@@ -64,3 +64,20 @@ def merge (freeze : Bool) (a b : Result) : Except String Result := do
 def mergeEmisLegacy (a b : KV.Rec Nat Rat) : Option (KV.Rec Nat Rat) := KV.addLeftKeysLegacy a b
 
 end Feems.Result
+
+namespace Feems.Result
+
+/-- Accumulation of component results into a node result and of node results into the system
+result: a left fold of the same-period merge (`res = res.sum_with_freeze_duration(res_comp)`),
+starting from an empty result. -/
+def foldFrom (acc : Result) (cs : List Result) : Except String Result :=
+  cs.foldlM (fun a c => merge true a c) acc
+
+def accumulate (n : Nat) (cs : List Result) : Except String Result := foldFrom (empty n) cs
+
+/-- System level: nodes (switchboards / shaft lines) first, then the nodes' results. -/
+def accumulateNested (n : Nat) (nodes : List (List Result)) : Except String Result := do
+  let rs ← nodes.mapM (accumulate n)
+  accumulate n rs
+
+end Feems.Result
